@@ -799,7 +799,8 @@ def deliver (isFloat : Bool) (q : Rat) : Num := if isFloat then .flt (ratToFloat
 
 /-- thresholds / counts beyond these are outside the model for the laws whose pmf / cdf loop or take
     powers (`range(x+1)` sums of Binomial and Poisson, `(1-p)**x` of Geometric): the exact
-    arithmetic of the `Prob` fragment is not meant for them, and Poisson's `exp(-mu)` underflows -/
+    arithmetic of the `Prob` fragment is not meant for them, and Poisson's `exp(-mu)` underflows; a
+    continuous variable declines numbers beyond the double range (OverflowError in the code) -/
 def maxThreshold : Nat := 2000
 def maxCount : Int := 1000
 def maxRate : Int := 500
@@ -809,6 +810,9 @@ def probRefused (x : RV) (args : List Num) : Bool :=
   | .disc (.binomial n _) => decide (n > maxCount) || args.any (fun a => decide (a.toRat.floor.natAbs > maxThreshold))
   | .disc (.poisson mu _) => decide (mu > maxRate) || args.any (fun a => decide (a.toRat.floor.natAbs > maxThreshold))
   | .disc (.geometric _) => args.any (fun a => decide (a.toRat.floor.natAbs > maxThreshold))
+  | .cont _ =>
+    -- a parameter / threshold beyond the double range: the code's float arithmetic raises OverflowError there
+    (args ++ x.params).any (fun a => decide (a.toRat.floor.natAbs > 10 ^ 300))
   | _ => false
 
 /-- is the value of one `cdf` / `pmf` call a float in Python?  (the argument `a` of a continuous
